@@ -399,6 +399,13 @@ func runCase(c Case) (fails []fail, obs string) {
 		add("impl-"+o.Class, "implementation: "+o.Class+" "+tg.FirstLine(o.ErrText))
 		return fails, "impl:" + o.Class
 	}
+	// positions are looked up through a cache in the shared file set: the same failure reported again (a clone
+	// sharing the bytecode, run after the first failure) must read exactly the same
+	if o.Comp != nil {
+		if cl, _, text2 := tg.RunCompiled(o.Comp.Clone()); cl != "runtime-error" || text2 != o.ErrText {
+			add("location-depends-on-earlier-runs", fmt.Sprintf("first run: %q; a clone run afterwards: %s %q", o.ErrText, cl, text2))
+		}
+	}
 	first, locs := parseTrace(o.ErrText)
 	_ = first
 	printed := func(file string) *gen.Printed {
